@@ -138,7 +138,7 @@ class Run:
             "repo": REPO,
         }
         # evidence/ is only ever written from runs against /repo itself (seed tests use a scratch worktree)
-        evdir = os.path.join(VERIF, "evidence") if os.path.realpath(REPO) == "/repo" else os.path.join(OUT, "evidence-scratch")
+        evdir = os.path.join(VERIF, "evidence") if os.path.realpath(REPO) == "/repo" and self.pid[1:].isdigit() else os.path.join(OUT, "evidence-scratch")
         os.makedirs(evdir, exist_ok=True)
         with open(os.path.join(evdir, f"{self.pid}.json"), "w") as fh:
             json.dump(ev, fh, indent=1, default=str)
